@@ -78,8 +78,12 @@ pub(super) fn parse(mut s: &str) -> Result<Genotype, ParseError> {
 }
 
 fn next_allele<'a>(s: &mut &'a str) -> &'a str {
-    let (t, rest) = match s.chars().skip(1).position(is_phasing_indicator) {
-        Some(i) => s.split_at(i + 1),
+    let (t, rest) = match s
+        .char_indices()
+        .skip(1)
+        .find(|&(_, c)| is_phasing_indicator(c))
+    {
+        Some((i, _)) => s.split_at(i),
         None => s.split_at(s.len()),
     };
 
